@@ -30,4 +30,5 @@ def run(rep, fb, tier):
     __import__("vf.rules.pyrules3", fromlist=["x"]).rule_py_numba_partition_cursor(rep)
     __import__("vf.rules.pyrules3", fromlist=["x"]).rule_py_numba_partition_start(rep)
     __import__("vf.rules.pyrules4", fromlist=["x"]).rule_py_numba_view_start_compose(rep)
+    __import__("vf.rules.pyrules5", fromlist=["x"]).rule_py_boundary_search_side(rep)
     rep.units = fb.units + ["src/awkward/_connect/_numba/*.py, _libawkward.py (ast)"]
